@@ -2,6 +2,7 @@ package main
 
 import (
 	"fmt"
+	"os"
 	"path/filepath"
 	"regexp"
 	"sort"
@@ -9,6 +10,7 @@ import (
 	"strings"
 	"sync/atomic"
 
+	"verif/harness/internal/histfs"
 	"verif/harness/internal/refgen"
 	"verif/harness/internal/report"
 	"verif/harness/internal/scen"
@@ -24,6 +26,69 @@ import (
 
 var reWarn = regexp.MustCompile(`^(.*?):(\d+):(\d+): no assignment for (\S+) \[`)
 
+// c05PercentPath: the same warnings when the setup file lives below directories whose names contain '%' (a position that is
+// pasted into a format string would be re-interpreted).  The tree is a module of its own, so the import path stays clean.
+func (e *Env) c05PercentPath() {
+	setups := []struct{ id, src string }{
+		{"name-match", "//go:build convergen\n\npackage p\n\ntype S struct{ A int }\n\ntype D struct {\n\tA int\n\tAge int\n\tNote string\n}\n\ntype Convergen interface {\n\tConv(*S) *D\n}\n"},
+		{"map-notation", "//go:build convergen\n\npackage p\n\ntype S struct{ A int }\n\ntype D struct {\n\tA int\n\tAge int\n}\n\ntype Convergen interface {\n\t// :map Missing Age\n\tConv(*S) *D\n\t// :match none\n\tConv2(*S) *D\n}\n"},
+		{"typecast-warning", "//go:build convergen\n\npackage p\n\ntype S struct{ Token string }\n\ntype D struct{ Token []byte }\n\n// :typecast\ntype Convergen interface {\n\tConv(*S) *D\n}\n"},
+	}
+	for _, dirs := range [][]string{{"my%20project", "100%done"}, {"%v%s%d", "%!", "a%"}} {
+		for _, su := range setups {
+			root := filepath.Join(append([]string{e.Scratch, "pct"}, dirs...)...)
+			_ = os.RemoveAll(root)
+			_ = histfs.WriteTree(root, map[string]string{"go.mod": "module example.com/pct\n\ngo 1.19\n", "p/setup.go": su.src})
+			res := e.Runner.Run(filepath.Join(root, "p"), []string{"setup.go"})
+			out, _ := os.ReadFile(filepath.Join(root, "p", "setup.gen.go"))
+			_ = os.RemoveAll(filepath.Join(e.Scratch, "pct"))
+			e.Rep.AddStates(1)
+			e.Rep.AddTransitions(1)
+			e.Rep.AddEvaluations(1)
+			e.Rep.AddValidated(1)
+			e.Rep.Outcome("percent-in-path")
+			e.Rep.Nontrivial("pct|" + strings.Join(dirs, "/") + "|" + su.id)
+			abs := filepath.Join(root, "p", "setup.go")
+			report1 := func(key, what string) {
+				e.Rep.Report(report.Finding{Key: "C05|percent-in-path|" + key, CellID: "pct_" + su.id, What: what + " [setup file at " + strings.Join(dirs, "/") + "/p/setup.go]",
+					Replay: &report.Replay{Kind: "cli", Files: map[string]string{"p/setup.go": su.src}, Steps: []string{"place the module below directories named " + strings.Join(dirs, ", "), "convergen setup.go"}, Observed: clip(res.Stderr, 600)}})
+			}
+			if res.Exit != 0 || res.Crashed() {
+				report1("rejected", "accepted input rejected: "+clip(res.Stderr, 300))
+				continue
+			}
+			nNoMatch := 0
+			for _, ln := range strings.Split(string(out), "\n") {
+				ln = strings.TrimSpace(ln)
+				if !strings.HasPrefix(ln, "// no match: ") {
+					continue
+				}
+				nNoMatch++
+				path := strings.TrimPrefix(ln, "// no match: ")
+				found := false
+				for _, w := range strings.Split(res.Stderr, "\n") {
+					if mm := reWarn.FindStringSubmatch(w); mm != nil && mm[1] == abs && mm[4] == path {
+						found = true
+					}
+				}
+				if !found {
+					report1("warning-garbled", fmt.Sprintf("no warning `<abs setup path>:<line>:<col>: no assignment for %s [...]` on stderr", path))
+				}
+			}
+			for _, w := range strings.Split(res.Stderr, "\n") {
+				if strings.Contains(w, "%!") && !strings.Contains(abs, "%!") || strings.Contains(w, "(MISSING)") || strings.Contains(w, "(string=") {
+					report1("format-verbs-in-diagnostic", "a diagnostic shows re-interpreted format verbs: "+clip(w, 200))
+				} else if w != "" && !strings.HasPrefix(w, abs+":") {
+					report1("diagnostic-without-position", "a diagnostic does not start with the setup file's position: "+clip(w, 200))
+				}
+			}
+			if nNoMatch == 0 {
+				report1("harness", "the input was expected to leave a destination field unmatched")
+			}
+		}
+	}
+}
+
 func init() {
 	register("C05", "model_checking", func(e *Env) {
 		th := e.Rep.Thorough()
@@ -37,7 +102,7 @@ func init() {
 		e.Rep.Rule("every function generated for families F1, F3, F4, F-name, F7 (blank and underscore-led members); oracle from the destination's go/types struct: (i) no path mentioned twice, (ii) no mentioned path a proper prefix of another, " +
 			"(iii) every accessible top-level field covered (mentioned, or all accessible members covered, recursively), (iv) no mention of a path through an inaccessible member or of an unknown path, " +
 			"(v) multiset of `no match` paths == multiset of `no assignment for` warnings on stderr, each positioned at <abs setup path>:<line of the method or of one of its notations>; " +
-			"non-trivial = function with >= 2 reachable leaves and >= 1 non-assignment line")
+			"the same warnings with the setup file below directories whose names contain '%' (format verbs); non-trivial = function with >= 2 reachable leaves and >= 1 non-assignment line")
 		var sampled atomic.Int32
 		e.Explore(cells, func(o *scen.Outcome, t *report.Tally) []report.Finding {
 			t.AddEvaluations(1)
@@ -237,5 +302,6 @@ func init() {
 			}
 			return fs
 		})
+		e.c05PercentPath()
 	})
 }
